@@ -4,7 +4,11 @@ import Obao.Model.CacheTxn
 Lines (fields tab-separated; `-` stands for the empty string; `who` is a transaction id or `p` = plain):
 `layer <name>` · `begin <id> rw|ro` · `get <who> <key>` · `put <who> <key> <val>` · `del <who> <key>` ·
 `list <who> <prefix>` · `listp <who> <prefix> <after> <limit>` · `commit <id>` · `rollback <id>` ·
-`dump <key>…` (values of the named keys in the parent store). -/
+`dump <key>…` (values of the named keys in the parent store).
+Commit window of the cache layer (trace validation of the micro-step model `CacheTxn.Win`): `cstart <id>` opens the
+window, `hget <key>` is a concurrent plain reader inside it, `cunder <id>` is the underlying commit (its verdict),
+the closing `commit <id>` performs the remaining evictions and returns; `cohere <key>…` compares a cache read with
+the backend below for every key (`=` agree, `!` differ). -/
 namespace Driver.InmemTxn
 open Obao Obao.SerialTxn Obao.InmemTxn Obao.CacheTxn
 
@@ -45,6 +49,7 @@ def parseEvent : List String → Option Event
 structure St where
   cached : Bool
   sys : CSys
+  win : Option Win := none
 
 def step (s : St) (fs : List String) : St × String :=
   match fs with
@@ -63,10 +68,49 @@ def step (s : St) (fs : List String) : St × String :=
           | none => (s, "bad-op")
         else go s r (showVal (sget s.sys.inner.parent (unq k)) :: acc)
     go s ks []
+  | ["cstart", id] =>
+    match s.cached, s.win, id.toNat? with
+    | true, none, some i =>
+      match Win.start s.sys i with
+      | some w => ({ s with win := some w }, "ok")
+      | none => (s, "bad-op")
+    | _, _, _ => (s, "bad-op")
+  | ["hget", k] =>
+    match s.win with
+    | some w => let (w', r) := w.reader (unq k); ({ s with win := some w' }, showRes r)
+    | none => (s, "bad-op")
+  | ["cunder", id] =>
+    match s.win, id.toNat? with
+    | some w, some i =>
+      if w.id = i ∧ w.phase = .before then
+        let w' := w.tick
+        match w'.phase with
+        | .before => (s, "bad-op")
+        | _ => ({ s with win := some w' }, showRes w'.res)
+      else (s, "bad-op")
+    | _, _ => (s, "bad-op")
+  | "cohere" :: ks =>
+    if !s.cached || s.win.isSome then (s, "bad-op") else
+    let rec goc (s : St) (ks : List String) (acc : List Char) : St × String :=
+      match ks with
+      | [] => (s, String.ofList acc.reverse)
+      | k :: r =>
+        match s.sys.step (.plain (.get (unq k))) with
+        | some (c', .val e) => goc { s with sys := c' } r ((if e = sget c'.inner.parent (unq k) then '=' else '!') :: acc)
+        | _ => (s, "bad-op")
+    goc s ks []
   | _ =>
     match parseEvent fs with
     | none => (s, "bad-op")
     | some e =>
+      match s.win, e with
+      | some w, .commit i =>
+        if w.id = i then
+          let w' := w.finish
+          ({ s with sys := w'.sys, win := none }, showRes w'.res)
+        else (s, "bad-op")
+      | some _, _ => (s, "bad-op")     -- nothing but readers runs inside a commit window
+      | none, _ =>
       if s.cached then
         match s.sys.step e with
         | none => (s, "bad-op")
